@@ -178,6 +178,12 @@ func corpusClassify() []interface{} {
 		"sock-eof", "sock-closed-local", "sock-deadline", "sock-reset", "sock-epipe"} {
 		ins = append(ins, input{Kind: "classify", Err: n, NH: 2, Lost: lostNames[n]})
 	}
+	// errors that reach handleConn without passing through handleError
+	for _, c := range []string{"ETooBig", "EOther", "ECanceled", "ETimeout", "EUnknown"} {
+		ins = append(ins, input{Kind: "classify", Err: "direct:" + c, NH: 2})
+	}
+	// a real oversize frame on a real TCP connection
+	ins = append(ins, input{Kind: "classify", Err: "tcp-oversize", NH: 2})
 	return ins
 }
 
@@ -193,17 +199,67 @@ func clsName(err error) string {
 		return "EUnknown"
 	case network.ErrTimeout:
 		return "ETimeout"
+	case network.ErrTooBig:
+		return "ETooBig"
 	}
 	return "EOther"
+}
+
+// BigC09 is a message whose frame can be made larger than MaxPacketSize.
+type BigC09 struct {
+	Pad []byte
+}
+
+var bigC09Type = network.RegisterMessage(&BigC09{})
+
+// runOversize: S and a peer on real TCP; the frame limit is lowered; the peer sends one frame above
+// it. S's receive loop must see ErrTooBig, tell its handlers and drop the connection; a following
+// small message of the peer arrives over a new connection.
+func runOversize(in input) lib.Case {
+	old := network.MaxPacketSize
+	network.MaxPacketSize = 1000
+	defer func() { network.MaxPacketSize = old }()
+	w, err := newRworld(true, 1, in.NH, 0)
+	if err != nil {
+		if w != nil {
+			w.cleanup()
+		}
+		return lib.Case{Discard: true}
+	}
+	defer w.cleanup()
+	pr := w.peers[0].routers[0]
+	w.markSent(1, 2)
+	if r, to := w.send(0, []int{1}); r != 1 {
+		return cutCase("classify:tcp-oversize", "Send to a live TCP peer (set-up)", to, r)
+	}
+	w.waitDelivered(0, 0, 1)
+	before := w.tabCount(0)
+	boundedDo(10*time.Second, func() { pr.Send(w.S.ServerIdentity, &BigC09{Pad: make([]byte, 5000)}) })
+	left := waitUntil(func() bool { return w.tabCount(0) < before }, 10*time.Second)
+	w.mu.Lock()
+	calls := 0
+	for h := range w.calls {
+		calls += w.calls[h][0]
+	}
+	w.mu.Unlock()
+	coq := fmt.Sprintf("CClassDirect ETooBig false %d %s %d", in.NH, lib.Bool(left), calls)
+	return lib.Case{Coq: coq, Class: "classify:tcp-oversize", Nontrivial: true,
+		Obs: map[string]interface{}{"connections_before": before, "loop_left": left, "handler_calls": calls}}
 }
 
 func runClassify(in input) lib.Case {
 	if wedgedKinds["classify"] >= 3 {
 		return lib.Case{Discard: true}
 	}
+	if in.Err == "tcp-oversize" {
+		return runOversize(in)
+	}
 	var raw error
 	feat := in.Feat
-	if in.Err == "synthetic" {
+	direct := strings.HasPrefix(in.Err, "direct:")
+	if direct {
+		raw = errOfClass(strings.TrimPrefix(in.Err, "direct:"))
+	} else if in.Err == "synthetic" {
 		raw = synthErr(feat)
 	} else {
 		raw = namedErr(in.Err)
@@ -214,6 +270,9 @@ func runClassify(in input) lib.Case {
 	// the features are always read off the value itself (for synthetic errors this equals the request)
 	feat = featuresOf(raw)
 	cls := network.VerifHandleError(raw)
+	if direct {
+		cls = nil
+	}
 
 	n := newFnet(false, 1, in.NH)
 	defer n.cleanup()
@@ -223,7 +282,11 @@ func runClassify(in input) lib.Case {
 	}
 	c := n.conns[0]
 	waitUntil(c.idle, 5*time.Second)
-	c.push(item{err: xerrors.Errorf("receiving: %w", xerrors.Errorf("buffer read: %w", cls))})
+	if direct {
+		c.push(item{err: raw})
+	} else {
+		c.push(item{err: xerrors.Errorf("receiving: %w", xerrors.Errorf("buffer read: %w", cls))})
+	}
 	waitUntil(func() bool { return !n.inTable(c) || c.idle() }, opDeadline)
 	left := !n.inTable(c)
 	if isWedged(n.S) {
@@ -242,6 +305,9 @@ func runClassify(in input) lib.Case {
 	}
 	coq := fmt.Sprintf("CClassify (mkRaw %s) %s %d %s %s %d", strings.Join(fs, " "), lib.Bool(in.Lost), in.NH,
 		clsName(cls), lib.Bool(left), calls)
+	if direct {
+		coq = fmt.Sprintf("CClassDirect %s %s %d %s %d", strings.TrimPrefix(in.Err, "direct:"), lib.Bool(in.Lost), in.NH, lib.Bool(left), calls)
+	}
 	class := "classify:" + in.Err
 	return lib.Case{Coq: coq, Class: class, Nontrivial: true,
 		Obs: map[string]interface{}{"error": raw.Error(), "features": feat, "translated": clsName(cls), "loop_left": left, "handler_calls": calls}}
